@@ -39,6 +39,9 @@ Comp(o, k) == cfg.obs[o].comp[k]
 Data(o, k) == cfg.obs[o].data[k]
 Extra(t) == IF t \in DOMAIN cfg.extra THEN cfg.extra[t] ELSE 0
 ObsVol(o) == cfg.obs[o].rate * cfg.obs[o].dur
+(* planned start in ticks (a coarser timestep unit may put it between two steps) *)
+EstT(o) == cfg.obs[o].estT
+DueStep(o) == ((cfg.obs[o].estT + cfg.K - 1) \div cfg.K) * cfg.K      \* first step boundary at or after it
 
 MaxI(a, b) == IF a >= b THEN a ELSE b
 MinI(a, b) == IF a <= b THEN a ELSE b
